@@ -13,6 +13,18 @@ CHECKS = {
              note=T_BASE + '; SHA-256 is an uninterpreted deterministic function: equal inputs are recognised by bit-string equality',
              technique='contracts on the real functions, symbolic execution over all paths with abstract children (structural induction), z3 (LIA + EUF digests)',
              design_ref='DESIGN.md §5 C01'),
+ 'C02': dict(category='proof',
+             text='Finite case split (cell type x own level mask 1..7 x kinds/masks of the children: non-pruned children with mask 0..7, '
+                  'pruned-branch children with mask 1..7) with SYMBOLIC contents (own data, per-level hashes/depths of abstract children, '
+                  'stored hashes/depths of pruned children): resolve_mask, calculate_hashes, get_hash(l), get_depth(l) for l=0..3 equal the '
+                  'TON specification (vf/spec/cell.py); every spec-valid cell of every type is constructible (refused iff a depth reaches '
+                  '1024); LevelMask algebra exhaustive; pruning invariance as a relational obligation (parent over subtree A vs parent '
+                  'over a pruned branch carrying A\'s hash/depth). Quick tier: all single children, all pairs over six kinds, samples of '
+                  '3/4 children; thorough tier: all pairs over 15 kinds and all triples/quadruples over 4/3 kinds. The parse route '
+                  '(exotic type byte) is carried by C03/C05.',
+             note=T_BASE + '; SHA-256 uninterpreted',
+             technique='contracts on the real functions, symbolic execution over all paths with abstract children, exhaustive finite case split, z3',
+             design_ref='DESIGN.md §5 C02'),
  'C18': dict(category='proof',
              text='Unbounded proof for every byte string: VCs generated from the AST of the real crc16/crc32c (tables, loop body, init, '
                   'final xor, byte order) and discharged by z3 in the bit-vector theory: each table entry, and the loop body for ALL '
